@@ -34,9 +34,12 @@ pub enum Path {
     BurstNotify,
     /// small notifies queued right before an oversized response
     BurstResponse,
+    /// the server's own error reply to a request whose (long) query is not valid UTF-8:
+    /// the reply echoes the query, so its size is the size under test
+    InvalidQueryReply,
 }
 
-const PATHS: [Path; 9] = [
+const PATHS: [Path; 10] = [
     Path::InlineResponse,
     Path::OffReaderResponse,
     Path::HandlerNotify,
@@ -46,6 +49,7 @@ const PATHS: [Path; 9] = [
     Path::ClientNotify,
     Path::BurstNotify,
     Path::BurstResponse,
+    Path::InvalidQueryReply,
 ];
 
 #[derive(Debug, Clone, Serialize, Deserialize, Hash, PartialEq, Eq)]
@@ -221,7 +225,7 @@ pub fn check(c: &Case) -> CheckResult {
     let single_thread = matches!(c.path, Path::BurstNotify | Path::BurstResponse);
     let fut = async {
         match c.path {
-            Path::InlineResponse | Path::OffReaderResponse | Path::HandlerNotify | Path::Broadcast | Path::BurstNotify | Path::BurstResponse => {
+            Path::InlineResponse | Path::OffReaderResponse | Path::HandlerNotify | Path::Broadcast | Path::BurstNotify | Path::BurstResponse | Path::InvalidQueryReply => {
                 let peers = PeerRegistry::new();
                 let errs = errors.clone();
                 let long_paths = [
@@ -371,6 +375,28 @@ pub fn check(c: &Case) -> CheckResult {
                                 f.header.ec,
                                 48 + f.query.len() + f.body.len()
                             );
+                        }
+                    }
+                    Path::InvalidQueryReply => {
+                        // a query of `size - 48 - 120` bytes that is not UTF-8: the server's
+                        // InvalidQuery reply echoes it, so the reply is about `size` bytes
+                        let qlen = size.saturating_sub(48 + 120).max(1);
+                        let query = vec![0xFFu8; qlen];
+                        io.send(&frame_with(7, 0, &query, 1, b"null", 2, 0)).await.map_err(|e| Fail::new("harness-send", e.to_string()))?;
+                        let f = recv_frame(&mut io, "the reply to a request with a non-UTF-8 query").await?;
+                        ensure!(f.header.id == 7 && f.header.ec != 0, "wrong-response", "non-UTF-8 query answered with id {:#x} ec {}", f.header.id, f.header.ec);
+                        let got = 48 + f.query.len() + f.body.len();
+                        if let Some(l) = limit {
+                            ensure!(got <= l, "oversized-message-on-wire", "the error reply to a {qlen}-byte non-UTF-8 query is {got} bytes, limit {l}");
+                            if 48 + qlen > l {
+                                // the echoing reply cannot fit: it must have been replaced
+                                ensure!(
+                                    f.header.ec == ErrorCode::InternalError as u32,
+                                    "oversized-response-not-replaced",
+                                    "the reply echoing a {qlen}-byte query cannot fit the {l}-byte limit but arrived with ec {}",
+                                    f.header.ec
+                                );
+                            }
                         }
                     }
                     Path::Broadcast => {
